@@ -243,7 +243,7 @@ static void verify (SNDFILE *sf, const Container *c, const Meta *m, int ch, cons
 			if (bad) vl_violation (rt_sig ("%s|cart-changed|%s", rs, bad), "%s: cart field %s differs after re-open", phase, bad) ;
 			}
 		}
-	if (c->cue && m->have_cue && ! (c->major == SF_FORMAT_AIFF && m->have_inst))
+	if (c->cue && m->have_cue)
 	{	SF_CUES g ; int r ; uint32_t cnt = 0 ; memset (&g, 0, sizeof (g)) ;
 		INLIB (sf_command (sf, SFC_GET_CUE_COUNT, &cnt, sizeof (cnt))) ;
 		INLIB (r = sf_command (sf, SFC_GET_CUE, &g, sizeof (g))) ;
@@ -277,9 +277,23 @@ static void verify (SNDFILE *sf, const Container *c, const Meta *m, int ch, cons
 		}
 }
 
+/* what the same writes give without any metadata (lossy encodings do not return the input) */
+static const short *plain_audio (const Container *c, int sub, int ch)
+{	static short ref [NFRAMES * 8] ; static int key = -1 ; SF_INFO info ; SNDFILE *sf ;
+	if (key == (c->major | sub | (ch << 28))) return ref ;
+	md_reset (&dev) ; memset (&info, 0, sizeof (info)) ; info.format = c->major | sub ; info.channels = ch ; info.samplerate = 44100 ;
+	sf = md_open (&dev, SFM_WRITE, &info) ; if (! sf) return audio (ch) ;
+	vl_write (sf, T_SHORT, 1, audio (ch), NFRAMES) ; INLIB (sf_close (sf)) ;
+	md_rewind (&dev) ; memset (&info, 0, sizeof (info)) ; sf = md_open (&dev, SFM_READ, &info) ; if (! sf) return audio (ch) ;
+	vl_read (sf, T_SHORT, 1, ref, NFRAMES) ; INLIB (sf_close (sf)) ;
+	key = c->major | sub | (ch << 28) ;
+	return ref ;
+}
+
 /* run a script; late = number of actions applied after the first audio write (0: all before) */
 static void run_script (const Container *c, int sub, int ch, const Action *acts, int nacts, int late, const char *rs)
 {	SF_INFO info ; SNDFILE *sf ; Meta m ; int rc, accepted [8] ; static short ref_audio [NFRAMES * 8], got_audio [NFRAMES * 8] ; short *au = audio (ch) ;
+	memcpy (ref_audio, plain_audio (c, sub, ch), sizeof (ref_audio)) ;
 	memset (&m, 0, sizeof (m)) ;
 	md_reset (&dev) ; memset (&info, 0, sizeof (info)) ; info.format = c->major | sub ; info.channels = ch ; info.samplerate = 44100 ;
 	sf = md_open (&dev, SFM_WRITE, &info) ;
@@ -303,11 +317,10 @@ static void run_script (const Container *c, int sub, int ch, const Action *acts,
 	if (! sf) { vl_violation (rt_sig ("%s|reopen-failed", rs), "re-open failed: %s", sf_strerror (NULL)) ; meta_free (&m) ; return ; }
 	/* audio must be untouched whatever happened to the metadata */
 	memset (got_audio, 0x55, sizeof (got_audio)) ;
-	if (info.frames != NFRAMES || vl_read (sf, T_SHORT, 1, got_audio, NFRAMES) != NFRAMES || memcmp (got_audio, au, NFRAMES * ch * 2) != 0)
-	{	long d = rt_first_diff (got_audio, au, NFRAMES * ch, T_SHORT) ;
+	if (info.frames != NFRAMES || vl_read (sf, T_SHORT, 1, got_audio, NFRAMES) != NFRAMES || memcmp (got_audio, ref_audio, NFRAMES * ch * 2) != 0)
+	{	long d = rt_first_diff (got_audio, ref_audio, NFRAMES * ch, T_SHORT) ;
 		vl_violation (rt_sig ("%s|audio-damaged%s", rs, late ? "-late" : ""), "after re-open: %lld frames (expected %d), first differing item %ld", (long long) info.frames, NFRAMES, d) ;
 		}
-	(void) ref_audio ;
 	if (late)
 	{	/* items set too late may be refused or ignored; the ones that were accepted before the data must survive */
 		Meta early ; memset (&early, 0, sizeof (early)) ;
@@ -338,6 +351,8 @@ static void run_c12 (void)
 						for (int late = 0 ; late < 2 ; late++)
 						{	Action a = { kind, sidx, v } ; int ch = 2, map [8] ;
 							if (si > 0 && (v % 4) != 1) continue ;
+							/* the software string is rewritten by the library (name and version appended, 127 characters in all): short one-line values only */
+							if (kind == K_STR && str_types [sidx] == SF_STR_SOFTWARE && (v > 2 && v != 12 && v != 13)) continue ;
 							if (kind == K_CHMAP) make_chmap (map, v, c, &ch) ;
 							if (vl_case ("C12 single fmt=%s/%s kind=%s%s%s variant=%d when=%s", c->name, sub_name (sub), kind_name [kind], kind == K_STR ? ":" : "", kind == K_STR ? str_names [sidx] : "", v, late ? "after-data" : "before-data"))
 							{	vl_root_count (c->name) ; run_script (c, sub, ch, &a, 1, late, rs) ; vl_end (supported (c, &a), 0) ; }
@@ -359,7 +374,7 @@ static void run_c12 (void)
 				{	Action acts [8] ; int n = 0 ;
 					(void) acts ; (void) n ;
 					{	Action all [NSTR + 2] ; int k = 0 ;
-						for (int i = 0 ; i < NSTR ; i++) all [k++] = (Action) { K_STR, ord ? NSTR - 1 - i : i, 2 + (i % 5) } ;
+						for (int i = 0 ; i < NSTR ; i++) all [k++] = (Action) { K_STR, ord ? NSTR - 1 - i : i, str_types [ord ? NSTR - 1 - i : i] == SF_STR_SOFTWARE ? 1 : 2 + (i % 5) } ;
 						/* run_script handles up to 8 accepted flags: split in two scripts */
 						vl_root_count (c->name) ;
 						run_script (c, sub, 2, all, 5, 0, rs) ; run_script (c, sub, 2, all + 5, 5, 0, rs) ;
